@@ -72,3 +72,11 @@ Theorem C06_ketose_default_refuted :
   add_edge (code_ketose_test "Neu" 6) (form_short "a" "3") <> add_edge (spec_ketose_test "Neu" 6) (form_short "a" "3").
 Proof. vm_compute. discriminate. Qed.
 Print Assumptions C06_ketose_default_refuted.
+
+(* TreeWalker.__add_edge as the code has it (Gen/Methods.v, regenerated on every run from walker.py) is the model
+   the statements above are about *)
+From GV Require Import Gen.Methods Proofs.MethodsThm.
+Theorem C06_add_edge_as_written :
+  forall ketose con, con <> ""%string -> gen_add_edge ketose con = add_edge ketose con.
+Proof. exact gen_add_edge_eq. Qed.
+Print Assumptions C06_add_edge_as_written.
